@@ -725,8 +725,11 @@ func ruleNilReceivers(c *Ctx, rule string, fns []*ssa.Function) {
 					}
 					c.Anchor(rule, fname(fn))
 					guarded := false
+					// what the accessor returns on the outcome known here (ok == true: the
+					// entry it found), in this function's terms
+					ov, _, _ := w.originAt(res, u)
 					for _, f := range w.factsAt(u) {
-						if fv, isNil, ok := nilFact(f); ok && !isNil && (fv == v || w.sameKey(fv, v) || w.sameKey(fv, res)) {
+						if fv, isNil, ok := nilFact(f); ok && !isNil && (fv == v || w.sameKey(fv, v) || w.sameKey(fv, res) || (ov != res && w.key(fv) == w.key(ov))) {
 							guarded = true
 						}
 					}
